@@ -56,6 +56,9 @@ structure OrderOps (lt gt le ge : α → α → Bool) : Prop where
   le_iff : ∀ a b, le a b = true ↔ (lt a b = true ∨ a = b)
   ge_iff : ∀ a b, ge a b = true ↔ (lt b a = true ∨ a = b)
 
+/-- the coordinate type's `-` can be undone: `a - c = b - c → a = b` (integers, also modulo 2^n; not floating point) -/
+def SubCancel (sub : α → α → α) : Prop := ∀ a b c, sub a c = sub b c → a = b
+
 namespace IntTy
 /-- `x` is a value of the type -/
 def Repr (t : IntTy) (x : Int) : Prop := t.lo ≤ x ∧ x ≤ t.hi
